@@ -148,6 +148,12 @@ def gen_base(rng, small=False, force=None):
     return case
 
 
+def _no_preexisting_outputs(case):
+    # a run that fails before it opens its outputs leaves old files as they were: nothing to judge there
+    case["knobs"]["preexist"] = False
+    return case
+
+
 def record_offsets(case, file_index):
     """Byte offsets of record starts in the plain stream of input file `file_index`."""
     s1, s2 = gen.record_sizes(case)
@@ -295,14 +301,14 @@ def generate_indexed(seed, index, tier, rng):
         case["meta"]["enumerated_base"] = b
         case["knobs"] = gen.gen_knobs(rng, case, PROFILE)
         _bias_buffer(rng, case)
-        return case
+        return _no_preexisting_outputs(case)
     # sampled part
     case = gen_base(rng, small=rng.random() < 0.5)
     files = gen.materialize(case)
     nf = 1 if rng.random() < 0.8 else 2
     case["faults"] = [random_fault(rng, case, files) for _ in range(nf)]
     _bias_buffer(rng, case)
-    return case
+    return _no_preexisting_outputs(case)
 
 
 def _bias_buffer(rng, case):
